@@ -13,6 +13,27 @@ CHECKS = {
         "note": ("Trusted: the model in vf/props/c14.py and vf/gen/fsim.py. Same-second modifications are 'either'; expiry by real time is "
                  "not modelled; histories are sampled (~4k quick, ~130k thorough)."),
     },
+    "C15": {
+        "level": "fault_enumeration",
+        "technique": "enumeration of every file-system call of the module write x 6 fault modes (fail/die before, after, midway) in forked children; hypothesis histories against a staleness model, with and without bytecode caching; sampled process races",
+        "text": ("(ii) For each state {module directory missing, module absent, present and older, present with another magic number, stale "
+                 "__pycache__ entry of the same second and size, orphaned bytecode} the fault-free run is logged through wrappers of every "
+                 "file-system entry point mako (or a changed writer) can use; then every k-th call is made to fail or the process to die before, "
+                 "after or midway through it. Afterwards the module path must hold nothing, the complete previous module or the complete new "
+                 "one (byte for byte, code generation time patched), a retry in the same process and a fresh Template in a new interpreter must "
+                 "render the current source. (i) Histories of up to 12 operations {source modified newer / equal / older with or without content "
+                 "change, module deleted, module replaced by one with another magic number (real image or foreign), construct in this or a "
+                 "forked process, with or without a recording module_writer} are checked against a staleness model (rewrite iff missing, "
+                 "older in whole seconds, or other magic; writer called with bytes and destination exactly then; after a rewrite the current "
+                 "source renders), once with bytecode writing off and once with it on, where same-second equal-size rewrites are generated on "
+                 "purpose. (iii) 2-8 forked processes released together construct the same Template against all states, incl. module "
+                 "directories missing 2-3 levels deep."),
+        "note": ("Trusted: vf/gen/faultfs.py wrappers (a call mako makes through a name that is not wrapped would be invisible; the child "
+                 "reports the fired call and the parent checks it against the log) and the staleness model in vf/props/c15.py. Races are "
+                 "sampled, not scheduled, and run with bytecode off; a residual bytecode race on the repaired tree (another process writing "
+                 "the old module's bytecode between the writer's second removal and its load, observed 2/400 in a dedicated probe with an "
+                 "old-magic module of the same second and size) is outside the explored set."),
+    },
     "C17": {
         "level": "exploration",
         "technique": "hypothesis-generated histories over generated cached templates; sentinel-parsed uncached render + key->content reference model; recording / Beaker / dogpile backends",
